@@ -760,6 +760,7 @@ exec_result execute(const program& p, u64 seed, const vs::params& prm) {
     rep().count("operation_restarts", res.restarts);
     rep().count("frees_during_concurrent_phase", x.frees_during_run);
     if (res.spins + res.restarts > 0) rep().count("executions_with_spin_or_restart");
+    if (S.patient_polls > 1000000) rep().count("executions_with_a_waiter_starved_for_2e20_polls");
     if (x.frees_during_run > 0) rep().count("executions_with_free_during_run");
     if (x.violated) {
       x.vwitness.set("program", p.to_json()).set("execution", g_exec_desc).set("switches_step_from_to_kind", sw);
@@ -947,6 +948,12 @@ bool run_case_t(u64 c, vh::rng& r, const vh::args& a, bool small) {
           const double pr = 0.04 + 0.06 * static_cast<double>(rr.below(3));
           q.kind_demote = {{LOCK_CAS, pr}, {LOCK_UNLOCK, pr}, {LOCK_OBSOLETE, pr}, {ORPHAN_XCHG, pr}, {ORPHAN_CAS, pr}, {QSBR_STATE_CAS, pr}};
           g_exec_desc += " +kind-demote";
+          if (rr.chance(0.12)) {
+            // starvation probe: the first waiter of this execution polls ~2^20 times before the lock holder runs again
+            q.spin_patience = 1100000 + rr.below(300000);
+            q.max_steps += 3 * q.spin_patience;
+            g_exec_desc += " +starve";
+          }
         }
       }
       const auto e = execute<Db>(p, vh::case_seed(rep().seed, c, 100 + k), q);
